@@ -76,10 +76,8 @@ def check_floyd_paths(acc, W, transform, cls, part):
     # input class 'rounding-tie': log-lengths are irrational, so minimum-length paths that tie over the reals (here: with
     # different edge counts) differ by rounding noise in floating point and which one "wins" a strict comparison is decided
     # by the order of summation.  Violations on such inputs carry the class in their key so that they can be triaged apart.
-    if transform == 'log':
-        Hs = O.hop_sets(L, Dtrue)
-        if bool(np.any((Hs.sum(axis=0) > 1) & ~np.eye(n, dtype=bool))):
-            sfx += '/rounding-tie'
+    if transform == 'log' and O.rounding_tie_class(L, Dtrue):
+        sfx += '/rounding-tie'
     fc_done = False
     longest = 0
     for i in range(n):
